@@ -58,7 +58,8 @@ CHILD_KINDS = {"VCALENDAR": ["VEVENT", "VEVENT", "VTODO", "VJOURNAL", "VFREEBUSY
                "STANDARD": [], "DAYLIGHT": []}
 
 ZONES = [["zi", "Europe/Berlin"], ["zi", "America/New_York"], ["pytz", "Europe/Vienna"], ["pytz", "Asia/Tokyo"],
-         ["du", "Europe/London"], ["du", "Australia/Sydney"], ["zi", "Asia/Kolkata"], ["zi", "Pacific/Fiji"],
+         ["du", "Europe/London"], ["du", "Australia/Sydney"], ["du", "Pacific/Kwajalein"], ["du", "Asia/Singapore"],
+         ["du", "America/Jamaica"], ["zi", "Asia/Kolkata"], ["zi", "Pacific/Fiji"],
          ["pytz", "America/Sao_Paulo"],
          # zones no table knows: the TZID written is the name the zone gives itself for that very date-time
          ["fixed", 345, "KST"], ["fixed", 345, "KDT"], ["fixed", 90], ["fixed", -210, "X-NT"], ["simdst"], ["simdst"]]
